@@ -518,6 +518,17 @@ func checkBlame(c *checkCtx, s *wsSpec, w []int, impl string) {
 		}
 	}
 	if id != k {
+		// A grammar with a rule that derives no token string (R = TA @list(R, TB) TC) is accepted by lox; its LR
+		// automaton then follows prefixes no sentence has, and the error is noticed later than the first bad token.
+		// This is the recorded finding if and only if the blamed token is the first one at which the input stops
+		// being a prefix in the UNREDUCED grammar (all rules predicted); any other blame is a different violation.
+		if kRaw, _ := earleyRun(s.dump, w, false); kRaw != k && id == kRaw {
+			c.addFinding(finding{Signature: "error-blame-delayed-by-unproductive-rule",
+				Desc: fmt.Sprintf("on %v the Error delivered carries token #%d; the input stops being a prefix of a sentence at token #%d already, but a rule that derives nothing keeps the LR automaton going until #%d",
+					tokenNames(s.dump, w), id, k, kRaw),
+				Replay: map[string]any{"spec": s.loxText, "tokens": w, "parser": impl, "first_bad_token_index": k, "first_bad_token_index_unreduced_grammar": kRaw}})
+			return
+		}
 		c.addFinding(finding{Signature: "error-blames-wrong-token",
 			Desc: fmt.Sprintf("on %v the first Error delivered carries token #%d, but the input stops being a prefix of a sentence at token #%d",
 				tokenNames(s.dump, w), id, k),
